@@ -131,6 +131,20 @@ def run(ctx):
         s = g["samples"][0]
         ctx.violation(g["key"], "totality (%s): %d inputs, e.g. %r: %s" % (
             g["dir"], g["texts"], s["texts"][0][:300], (s.get("errors") or [""])[0]), replay=g)
+    # width: the verdict of a list of sibling terms does not depend on their number (Compositional)
+    outw = ctx.path("idem_wide.json")
+    ctx.drv(["wide", "-out", outw], cmd_name=DRV, timeout=600)
+    wide = json.load(open(outw))["probes"]
+    for w in wide:
+        if w.get("panic"):
+            ctx.violation("total:panic:wide:%s" % w["shape"], "panic on %s with %d sibling terms: %s" % (w["shape"], w["n"], w["panic"]), replay=w)
+        elif w["got"] != w["want"]:
+            direction = "incomplete" if w["want"] else "unsound"
+            ctx.violation("%s:wide:%s" % (direction, w["shape"]),
+                          "a statement of shape %s with %d sibling terms%s is classified %s (%s); Idempotency.tla's verdict does not depend on the number of siblings" % (
+                              w["shape"], w["n"], " (one of them now())" if w["nonidem_sibling"] else "", "idempotent" if w["got"] else "not idempotent", w.get("err", "")),
+                          replay=w)
+    ctx.notes["width_probes"] = len(wide)
     fatal = [p for p in deep if p.get("fatal")]
     if fatal:
         p0 = min(fatal, key=lambda p: p["query_bytes"])
